@@ -488,7 +488,8 @@ func c14(c *orch.Ctx) (*report.Result, error) {
 		// the descriptor was generated under another module path: re-derive nothing else (imports use ModPath)
 		rd := (&p2).Render(synth.RenderOpts{})
 		for rel, content := range cs.Files {
-			rd.Files[rel] = content
+			// extra files were written against the descriptor's module path; the case runs under its own
+			rd.Files[rel] = strings.ReplaceAll(content, "\""+p.ModPath+"/", "\""+p2.ModPath+"/")
 		}
 		if cs.RawCfg != "" || cs.Grammar == "config" {
 			rd.Files["gleece.config.json"] = cs.RawCfg
